@@ -175,7 +175,9 @@ Qed.
 (* the private-key part Key.__init__ extracts from the text *)
 Lemma wif_text_private_part n f c : In n all_networks -> nw_prefix_wif n = [v] -> f = FWif \/ f = FWifCompressed ->
   key_private_part fold wc (KStr w) f c =
-  if wif_payload_compressed wc payload then Ok (skipn 1 (droplast 1 payload), true) else Ok (skipn 1 payload, false).
+  let '(kb, c') := if wif_payload_compressed wc payload then (skipn 1 (droplast 1 payload), true)
+                   else (skipn 1 payload, false) in
+  if Nat.eqb (length kb) 32 then Ok (kb, c') else Err EKey.
 Proof.
   intros Hn Hver Hf.
   assert (E : key_private_part fold wc (KStr w) f c =
@@ -187,9 +189,10 @@ Proof.
                   if negb (b58_checksum_ok key check) then Err EKey
                   else match lib_networks_by_wif (firstn 1 key) with
                        | [] => Err EKey
-                       | _ => if wif_payload_compressed wc key
-                              then Ok (skipn 1 (droplast 1 key), true)
-                              else Ok (skipn 1 key, false)
+                       | _ => let '(kb, c') := if wif_payload_compressed wc key
+                                               then (skipn 1 (droplast 1 key), true)
+                                               else (skipn 1 key, false) in
+                              if Nat.eqb (length kb) 32 then Ok (kb, c') else Err EKey
                        end
               end) by (destruct Hf as [-> | ->]; reflexivity).
   rewrite E, wif_text_bytes. cbv zeta.
@@ -253,8 +256,8 @@ Proof.
       by (destruct (km_compressed km); auto).
     rewrite Hpc. subst flag. destruct (km_compressed km).
     - change (v :: secret ++ [x01]) with ((v :: secret) ++ [x01]).
-      rewrite droplast_app_exact by reflexivity. reflexivity.
-    - rewrite app_nil_r. reflexivity. }
+      rewrite droplast_app_exact by reflexivity. cbn [skipn]. rewrite Hlen. reflexivity.
+    - rewrite app_nil_r. cbn [skipn]. rewrite Hlen. reflexivity. }
   pose proof (networks_by_wif_in n Hn) as Hin.
   split; [|split; [exact Hin | split; [exact Hfmt | split]]].
   - unfold lib_wif. rewrite Hpriv. cbn [negb].
@@ -277,7 +280,9 @@ Proof.
     rewrite Hpart. unfold wif_key_obj. reflexivity.
 Qed.
 
-(* the code before fixes/C12-1: an uncompressed key whose secret ends in 01 comes back as another key *)
+(* the code before fixes/C12-1: the uncompressed WIF of a secret ending in 01 is taken for a compressed WIF, the
+   last secret byte for the marker; the 31 bytes left are then refused (before the C11 repair "Key() refuses a WIF
+   whose private key part is not 32 bytes" they were silently returned as another key) *)
 Definition wif_bug_secret : bytes := repeat x11 31 ++ [x01].
 Definition wif_bug_km : keymeta :=
   {| km_private := true; km_secret := wif_bug_secret; km_pubc := []; km_pubu := []; km_compressed := false;
@@ -286,12 +291,11 @@ Definition wif_bug_km : keymeta :=
 
 Lemma wif_roundtrip_old_code_refuted :
   match lib_wif wif_bug_km with
-  | Ok w => lib_key_import false false (KStr w) None true None =
-            Ok {| ko_private := true; ko_key := repeat x11 31; ko_compressed := true;
-                  ko_network := "bitcoin"%string; ko_format := FWifCompressed |}
+  | Ok w => lib_key_import false false (KStr w) None true None = Err EKey /\
+            (exists i, lib_get_key_format false false (KStr w) None = KfOk i /\ kf_format i = FWifCompressed)
   | Err _ => False
   end.
-Proof. vm_compute. reflexivity. Qed.
+Proof. vm_compute. split; [reflexivity | eexists; split; reflexivity]. Qed.
 
 (* ------------------------------------------------------------------ raw forms *)
 Lemma hexval_hexchar d : 0 <= d < 16 -> hexval (hexchar d) = Some d.
